@@ -323,7 +323,7 @@ def _check_predict(ctx, f):
                 or body_first in pnodes
             twice = False
             for a_ in pnodes:
-                reach = cfg.reachable_after(a_, avoid={hdr})
+                reach = cfg.reachable_normally(a_, avoid={hdr})
                 if (pnodes - {a_}) & reach:
                     twice = True
             why = ""
